@@ -2,7 +2,8 @@
 #ifndef RXV_CONTRACTS_VM_PROT_H
 #define RXV_CONTRACTS_VM_PROT_H
 #include "contracts_jit_prot.h"
-#ifdef LIGHT
+#if defined(RXV_CACHE_PROT)
+#elif defined(LIGHT)
 void CompiledLightVm_setCache(struct randomx_vm* self, randomx_cache* cache)
 __CPROVER_requires(__CPROVER_is_fresh(self, sizeof(*self)) && __CPROVER_is_fresh(cache, sizeof(*cache)) && RXV_VM_PRE)
 __CPROVER_assigns(__CPROVER_object_whole(self), rxv_prot, rxv_wx_requests)
@@ -23,5 +24,13 @@ void CompiledVm_run(struct randomx_vm* self, void* seed)
 __CPROVER_requires(__CPROVER_is_fresh(self, sizeof(*self)) && __CPROVER_is_fresh(self->datasetPtr, sizeof(randomx_dataset)) && RXV_VM_PRE)
 __CPROVER_assigns(__CPROVER_object_whole(self), rxv_prot, rxv_wx_requests)
 __CPROVER_ensures(RXV_VM_POST);
+#endif
+#ifdef RXV_CACHE_PROT
+void initCache(randomx_cache* cache, const void* key, size_t keySize) __CPROVER_requires(1) __CPROVER_ensures(1) __CPROVER_assigns();
+/* a cache allocated with the JIT flag owns a constructed compiler (buffer RW or, after an earlier initialisation, RX) */
+void initCacheCompile(randomx_cache* cache, const void* key, size_t keySize)
+__CPROVER_requires(__CPROVER_is_fresh(cache, sizeof(*cache)) && __CPROVER_is_fresh(cache->jit, sizeof(struct JitCompilerX86)) && RXV_SECURE_INV)
+__CPROVER_assigns(rxv_prot, rxv_wx_requests)
+__CPROVER_ensures(rxv_prot == RXV_RX && rxv_wx_requests == __CPROVER_old(rxv_wx_requests));
 #endif
 #endif
